@@ -150,7 +150,7 @@ _gen_uamiv_only = gen
 def gen(rng, n, tier):  # noqa: F811
     out = _gen_uamiv_only(rng, (n * 2) // 3, tier)
     for i in range(n - len(out)):
-        c = M.gen_met(rng, tier=tier)
+        c = MC.gen_any(rng, tier=tier)
         out.append(dict(kind='met-' + c['fmt'], content=c, write=True))
     return out
 
